@@ -10,6 +10,7 @@ EXPLANATION = (
     "(a second unanswered ping is therefore reported, an answered one never is); "
     "(R-C18-branch) the keep-alive branch of select() resets the timer and issues Request::PingReq on the same path, and (v4) the timer is created in poll() only when keep_alive is non-zero; "
     "(R-C18-connect-timeout) in poll() the future passed to time::timeout is connect(..) bounded by the configured connection timeout, and the elapsed edge returns ConnectionError::NetworkTimeout. "
+    "(R-C18-interval) the timer is created with and re-armed to now + options.keep_alive, and the event loop rewrites that option only from the CONNACK's Server Keep Alive (v5); "
     "NOT decided (most of the statement): every timing bound (ping at least once per interval, failure no later than the second interval, no false alarm).")
 ASSUMPTIONS = ["rustc MIR construction is correct", "tokio's timer and select! behave as documented"]
 TECHNIQUE = "static analysis: who-may-write with edge conditions, dominance rules on async-body MIR, provenance of the timeout's future"
@@ -23,6 +24,7 @@ def run(ctx):
         ctx.guarded("R-C18-flag", flag, ctx, prog, ver)
         ctx.guarded("R-C18-branch", branch, ctx, prog, ver)
         ctx.guarded("R-C18-connect-timeout", connect_timeout, ctx, prog, ver)
+        ctx.guarded("R-C18-interval", interval, ctx, prog, ver)
 
 
 def flag(ctx, prog, ver):
@@ -152,3 +154,57 @@ def connect_timeout(ctx, prog, ver):
         ctx.ok(rule, poll.id, "the elapsed edge returns a timeout error (NetworkTimeout / Timeout(Elapsed))")
     else:
         ctx.violation(rule, poll.id, "timeout not reported", "an elapsed connect timeout is not reported as ConnectionError::NetworkTimeout", site=poll.fn_loc())
+
+
+def interval(ctx, prog, ver):
+    """which duration the keep-alive timer runs on: created with and reset to options.keep_alive; that option is
+    rewritten by the event loop only from the CONNACK's Server Keep Alive (v5); the CONNECT packet announces the
+    same option to the broker"""
+    rule = "R-C18-interval"
+    pre = dict((v[0], v[2]) for v in VERSIONS)[ver]
+    mod = pre.rsplit("EventLoop::", 1)[0]
+    optf = "mqtt_options" if ver == "v4" else "options"
+
+    def is_opt_keepalive(body, op, through=()):
+        src = [x for x in flatten_src(provenance(body, op, through_calls=list(through))) if not (x.kind == "call" and any(re.search(r_, x.path) for r_ in through))]
+        return bool(src) and all(getattr(x, "fields", None) and [y.lstrip("^") for y in x.fields][-2:] == [optf, "keep_alive"] for x in src), src
+    poll = prog.one("^" + re.escape(pre) + r"poll::\{closure#0\}$")
+    sel = prog.one("^" + re.escape(pre) + r"select::\{closure#0\}$")
+    sleeps = [(poll, t) for bb, t in poll.calls() if callee_path(t).endswith("tokio::time::sleep") and not poll.is_cleanup(bb)]
+    ctx.floor(rule, "keep-alive timer creation in poll (%s)" % ver, len(sleeps), 1)
+    for body, t in sleeps:
+        okk, src = is_opt_keepalive(body, t["args"][0])
+        if okk:
+            ctx.ok(rule, body.id, "timer created with %s.keep_alive" % optf, site=body.loc(t.get("sp")))
+        else:
+            ctx.violation(rule, body.id, "timer duration", "the keep-alive timer is created with something other than %s.keep_alive (%s)" % (optf, [(x.kind, getattr(x, "fields", None)) for x in src]), site=body.loc(t.get("sp")))
+    resets = [(bb, t) for bb, t in sel.calls() if callee_path(t).endswith("tokio::time::Sleep::reset") and not sel.is_cleanup(bb)]
+    ctx.floor(rule, "keep-alive timer reset in select (%s)" % ver, len(resets), 1)
+    for bb, t in resets:
+        good = False
+        for x in flatten_src(provenance(sel, t["args"][1])):
+            if x.kind == "call" and re.search(r"Instant as std::ops::Add<std::time::Duration>>::add$", x.path):
+                okk, _ = is_opt_keepalive(sel, x.term["args"][1])
+                nows = flatten_src(provenance(sel, x.term["args"][0]))
+                good = okk and bool(nows) and all(n_.kind == "call" and n_.path.endswith("Instant::now") for n_ in nows)
+        if good:
+            ctx.ok(rule, sel.id, "timer reset to Instant::now() + %s.keep_alive" % optf, site=sel.loc(t.get("sp")))
+        else:
+            ctx.violation(rule, sel.id, "timer reset deadline", "after a ping the keep-alive timer is not re-armed at now + %s.keep_alive" % optf, site=sel.loc(t.get("sp")))
+    # writers of the option inside the event loop module
+    n = 0
+    for body, bi, st in field_writes(prog, "keep_alive"):
+        if not body.id.startswith(mod):
+            continue
+        if "MqttOptions" not in body.local_ty(st["lhs"]["l"]):
+            continue
+        n += 1
+        src = [x for x in flatten_src(provenance(body, st["rv"]["a"], through_calls=[r"Duration::from_secs$"])) if not (x.kind == "call" and x.path.endswith("Duration::from_secs"))] if st["rv"]["k"] == "use" else []
+        if src and all(getattr(x, "fields", None) and "server_keep_alive" in x.fields for x in src):
+            ctx.ok(rule, body.id, "options.keep_alive is overridden only by the CONNACK's server_keep_alive", site=body.loc(st.get("sp")))
+        else:
+            ctx.violation(rule, body.id, "keep_alive override source",
+                          "the event loop rewrites options.keep_alive from %s instead of the CONNACK's Server Keep Alive: the ping interval follows an unrelated value" % [(x.kind, getattr(x, "fields", None)) for x in src],
+                          site=body.loc(st.get("sp")))
+    if ver == "v5":
+        ctx.floor(rule, "event-loop writes of options.keep_alive (v5)", n, 1)
